@@ -23,7 +23,7 @@ import (
 //     log with the goroutine id; the orchestrator checks the log offline.
 var c13 struct {
 	mode       string
-	parkAt     string // "", dirty2, wal, miss
+	parkAt     string // "", dirty2, wal (before the log write), sync (between the log write and its fsync), miss
 	parkMs     int
 	slowWrites int
 	dirtyN     int // markDirty calls of the current statement (session goroutine only)
@@ -89,6 +89,7 @@ func init() {
 				}
 			}
 			storage.VerifWalWrite = func(kind, n int) { c13park("wal") }
+			storage.VerifWalSync = func() { c13park("sync") }
 			storage.VerifFetchMiss = func(off uint64) { c13park("miss") }
 		case "log":
 			storage.VerifMarkDirty = func(off, lsn uint64) {
@@ -102,7 +103,7 @@ func init() {
 				}
 			}
 			storage.VerifWalWrite = func(kind, n int) { c13log("walWrite", 0); c13park("wal") }
-			storage.VerifWalSync = func() { c13log("walSync", 0) }
+			storage.VerifWalSync = func() { c13log("walSync", 0); c13park("sync") }
 			storage.VerifWalDone = func() { c13log("walDone", 0) }
 			storage.VerifFetchMiss = func(off uint64) { c13park("miss") }
 			storage.VerifPageWrite = func(off uint64) {
